@@ -99,8 +99,11 @@ def generate() -> str:
     if fn is not None:
         a0, a1 = fn.args.args[0].arg, fn.args.args[1].arg
         padname = fn.args.args[2].arg if len(fn.args.args) > 2 else None
-        if padname and fn.args.defaults and isinstance(fn.args.defaults[-1], ast.Constant):
-            facts["defaultPad"] = f"(some {fn.args.defaults[-1].value})"
+        # the default of the padding parameter itself (the third positional one), whatever parameters follow it
+        n_pos, n_def = len(fn.args.args), len(fn.args.defaults)
+        k = 2 - (n_pos - n_def)
+        if padname and 0 <= k < n_def and isinstance(fn.args.defaults[k], ast.Constant) and type(fn.args.defaults[k].value) is int and fn.args.defaults[k].value >= 0:
+            facts["defaultPad"] = f"(some {fn.args.defaults[k].value})"
         # follow the value handed to _get_bbox_nd through the locals: a mask M, and what replaces it when M has no True
         env = {}
         for st in fn.body:
